@@ -703,3 +703,87 @@ M('k38-registry-dict-call', ['C10', 'C11', 'C05'], S, "        self._input_map =
 M('k20-sigpipe-default', ['C20', 'C01'], CLI, "def main():\n", "def main():\n    import signal\n    signal.signal(signal.SIGPIPE, signal.SIG_DFL)\n", None, 'only SIGPIPE is reset: Ctrl-C still raises KeyboardInterrupt', expect='silent')
 M('k23c-length-in-a-local', ['C19'], PFD, "        if self.max_length is not None and len(value) > self.max_length:\n", "        n_chars = len(value)\n        if self.max_length is not None and n_chars > self.max_length:\n", None,
   'the length kept in a local variable', expect='silent')
+
+# ------------------------------------------------------------------ round 10 of the seeded changes
+L5_22 = ("                if not v[f'1099-r:{n}.box_7_ira_sep_simple']:\n                    if v[f'1099-r:{n}.box_2b_taxable_not_determined']:\n                        self.not_implemented()\n"
+         "                    distributions += v[f'1099-r:{n}.box_1']\n                    taxable_amount += v[f'1099-r:{n}.box_2a']\n")
+M('r2-9-summand-leaves-its-condition', ['C02'], Y22 + 'f1040.py', "                    taxable_amount += v[f'1099-r:{n}.box_2a']\n", "                taxable_amount += v[f'1099-r:{n}.box_2a']\n", 'R2.9',
+  'box 2a of every 1099-R is added to the 2022 line 5b, the IRA copies included (dedent; seed C02-S); 2023 still adds it for the pension copies only')
+M('r9-7-break-at-the-first-ira-copy', ['C09'], Y22 + 'f1040.py', L5_22,
+  "                if v[f'1099-r:{n}.box_7_ira_sep_simple']:\n                    break\n                if v[f'1099-r:{n}.box_2b_taxable_not_determined']:\n                    self.not_implemented()\n"
+  "                distributions += v[f'1099-r:{n}.box_1']\n                taxable_amount += v[f'1099-r:{n}.box_2a']\n", 'R9.7',
+  'the loop over the 1099-R copies stops at the first IRA copy: later copies are never tested for "taxable amount not determined" (seed C09-S)')
+M('r9-7-continue-at-an-ira-copy', ['C09', 'C02', 'C16'], Y22 + 'f1040.py', L5_22,
+  "                if v[f'1099-r:{n}.box_7_ira_sep_simple']:\n                    continue\n                if v[f'1099-r:{n}.box_2b_taxable_not_determined']:\n                    self.not_implemented()\n"
+  "                distributions += v[f'1099-r:{n}.box_1']\n                taxable_amount += v[f'1099-r:{n}.box_2a']\n", None,
+  'the same loop un-nested with `continue`: every copy is still visited', expect='silent')
+M('r9-7-refusal-tests-reordered', ['C09', 'C02'], Y23 + 'f1040_s3.py', "            if i['other_foreign_gross_income'] or foreign_tax > self.threshold('form_1116_foreign_tax', i['1040.filing_status']):\n",
+  "            limit = self.threshold('form_1116_foreign_tax', i['1040.filing_status'])\n            if foreign_tax > limit or i['other_foreign_gross_income']:\n", None,
+  'the two refusal tests of Schedule 3 line 1 in the other order', expect='silent')
+M('r2-9-break-at-the-first-ira-copy', ['C02', 'C16'], Y22 + 'f1040.py', L5_22,
+  "                if v[f'1099-r:{n}.box_7_ira_sep_simple']:\n                    break\n                if v[f'1099-r:{n}.box_2b_taxable_not_determined']:\n                    self.not_implemented()\n"
+  "                distributions += v[f'1099-r:{n}.box_1']\n                taxable_amount += v[f'1099-r:{n}.box_2a']\n", 'R2.9',
+  'the same change seen by the sibling rule of C02/C16: copies after the first IRA copy are not added')
+M('k0-second-copy-of-a-form-skipped', ['C01', 'C04', 'C05'], S, "        for form_name in form_names:\n            self._add_form(form_name)\n",
+  "        requested = set()\n        for form_name in form_names:\n            name, _ = form.name_and_instance(form_name)\n            if name in requested:\n                continue\n            requested.add(name)\n            self._add_form(form_name)\n", 'K0',
+  'a guard against a form requested twice is keyed by the bare form name: of w-2:0 and w-2:1 only the first requested is added (seed C05-T)')
+M('k0-whole-name-requested-twice-skipped', ['C01', 'C04', 'C05'], S, "        for form_name in form_names:\n            self._add_form(form_name)\n",
+  "        requested = set()\n        for form_name in form_names:\n            if form_name in requested:\n                continue\n            requested.add(form_name)\n            self._add_form(form_name)\n", None,
+  'the same guard keyed by the whole requested name: only an exact repeat is skipped', expect='silent')
+M('k39-year-also-at-the-top-level', ['C07', 'C14'], CLI, "    subparsers = parser.add_subparsers(required=True, help='sub-command help')\n    default_year = max(forms.available_forms.keys())\n",
+  "    default_year = max(forms.available_forms.keys())\n    parser.add_argument('--year', choices=forms.available_forms.keys(), type=int, default=default_year)\n    subparsers = parser.add_subparsers(required=True, help='sub-command help')\n", 'K39',
+  '--year is also accepted before the sub-command, where the sub-command\'s default replaces it (seed C07-T)')
+M('k39-verbose-at-the-top-level', ['C07', 'C14'], CLI, "    subparsers = parser.add_subparsers(required=True, help='sub-command help')\n",
+  "    parser.add_argument('--verbose', action='store_true', default=False)\n    subparsers = parser.add_subparsers(required=True, help='sub-command help')\n", None,
+  'a top-level option no sub-command defines', expect='silent')
+M('r10-0-slots-on-the-line-classes', ['C10', 'C17'], FI, "class Field(object):\n    def __init__(self, name):\n", "class Field(object):\n    __slots__ = ('_name', '_form')\n\n    def __init__(self, name):\n", 'R1',
+  'every class of the StringField chain declares __slots__: Schedule B can no longer tag its generated lines with the copy they belong to (seed C10-S)',
+  more=[(FI, "class TypedField(Field):\n    def __init__(self, name, value_fn, _type):\n", "class TypedField(Field):\n    __slots__ = ('_value', '_type', '_empty_value')\n\n    def __init__(self, name, value_fn, _type):\n"),
+        (FI, "class BasicTypedField(TypedField):\n    def to_string(self, value):\n", "class BasicTypedField(TypedField):\n    __slots__ = ()\n\n    def to_string(self, value):\n"),
+        (FI, "class StringField(BasicTypedField):\n    def __init__(self, name, value_fn):\n", "class StringField(BasicTypedField):\n    __slots__ = ()\n\n    def __init__(self, name, value_fn):\n")])
+M('r10-0-slots-on-the-base-class-only', ['C10', 'C17'], FI, "class Field(object):\n    def __init__(self, name):\n", "class Field(object):\n    __slots__ = ('_name', '_form')\n\n    def __init__(self, name):\n", None,
+  '__slots__ on the base class alone: the subclasses still have a __dict__', expect='silent')
+M('r10-11-one-digit-copy-numbers-only', ['C10'], 'habutax/form.py', "    split_form_name = full_form_name.split(':')\n    form_instance = None\n    if len(split_form_name) == 2:\n        form_instance = split_form_name[1]\n    elif len(split_form_name) != 1:\n        raise RuntimeError(f'Unexpected form name: {full_form_name} (expected 0 or 1 colons)')\n    return split_form_name[0], form_instance\n",
+  "    import re\n    match = re.fullmatch(r'(?P<name>[A-Za-z0-9_-]+)(?::(?P<instance>[A-Za-z_]+|[0-9]))?', full_form_name)\n    if match is None:\n        raise RuntimeError(f'Unexpected form name: {full_form_name}')\n    return match.group('name'), match.group('instance')\n", 'R10.11',
+  'name_and_instance validates with a pattern that allows one digit of copy number: w-2:10 is "unexpected" (seed C10-T)')
+M('r10-11-pattern-with-any-copy-number', ['C10'], 'habutax/form.py', "    split_form_name = full_form_name.split(':')\n    form_instance = None\n    if len(split_form_name) == 2:\n        form_instance = split_form_name[1]\n    elif len(split_form_name) != 1:\n        raise RuntimeError(f'Unexpected form name: {full_form_name} (expected 0 or 1 colons)')\n    return split_form_name[0], form_instance\n",
+  "    import re\n    match = re.fullmatch(r'(?P<name>[^:]+)(?::(?P<instance>[^:]+))?', full_form_name)\n    if match is None:\n        raise RuntimeError(f'Unexpected form name: {full_form_name}')\n    return match.group('name'), match.group('instance')\n", None,
+  'the same rewrite with a pattern that accepts what split(":") accepted', expect='silent')
+M('k40-filler-tables-in-the-class-body', ['C14', 'C19', 'C04'], PF, "        # Instances of Forms in the solution, and fields belonging to those\n        # forms\n        self.forms = []\n        self._field_map = {}\n\n        # Values read from solution file\n        self._values = values.ValueStore()\n", "",
+  'K40', 'the filler\'s tables move into the class body: every filler of the process shares them (seed C14-S)',
+  more=[(PF, "class PDFFiller(object):\n", "class PDFFiller(object):\n    forms = []\n    _field_map = {}\n    _values = values.ValueStore()\n\n")])
+M('k40-solver-trackers-in-the-class-body', ['C04', 'C05'], S, "        self._unimplemented_fields = []\n", "", 'K40', 'the list of unimplemented lines is one list for every solver of the process',
+  more=[(S, "class Solver(object):\n", "class Solver(object):\n    _unimplemented_fields = []\n\n")])
+M('k40-class-level-defaults-overridden', ['C14', 'C19', 'C04'], PF, "class PDFFiller(object):\n", "class PDFFiller(object):\n    _pdftk = 'pdftk'\n    forms = []\n\n", None,
+  'class-level defaults that __init__ replaces with the instance\'s own objects', expect='silent')
+M('k35-file-parsed-with-read', ['C11', 'C13', 'C20'], IN, "            with open(input_config) as config_file:\n                self.config.read_file(config_file)\n", "            self.config.read(input_config)\n", 'K35',
+  'the store is filled with ConfigParser.read(), which skips a file it cannot open: supplied inputs are reported missing (seed C11-T)')
+M('k35-file-handle-renamed', ['C11', 'C13', 'C20'], IN, "            with open(input_config) as config_file:\n                self.config.read_file(config_file)\n", "            with open(input_config) as fh:\n                self.config.read_file(fh)\n", None,
+  'the file handle renamed', expect='silent')
+M('k18b-write-validates-first', ['C20', 'C13'], IN, "    def write(self, filename):\n", "    def write(self, filename):\n        for name, spec in self.input_specs.items():\n            if self.provides(spec):\n                self[name]\n", 'K18b',
+  'write() re-reads every stored value through its validator before opening the file: one invalid entry loses the session (seed C20-S)')
+M('k18b-write-counts-sections', ['C20', 'C13'], IN, "    def write(self, filename):\n", "    def write(self, filename):\n        n_sections = len(self.config.sections())\n", None,
+  'write() counts the sections first (reads nothing through a validator)', expect='silent')
+M('r16-1-wages-summed-over-a-set', ['C16', 'C02'], Y22 + 'f1040.py', "            return sum([v[f'w-2:{n}.box_1'] for n in range(i['number_w-2'])]) if i['number_w-2'] > 0 else None\n",
+  "            return sum({v[f'w-2:{n}.box_1'] for n in range(i['number_w-2'])}) if i['number_w-2'] > 0 else None\n", 'R',
+  'box 1 of the W-2s is summed over a SET: two W-2s with the same wages count once (seed C16-S)')
+M('r16-1-wages-summed-over-a-generator', ['C16', 'C02'], Y22 + 'f1040.py', "            return sum([v[f'w-2:{n}.box_1'] for n in range(i['number_w-2'])]) if i['number_w-2'] > 0 else None\n",
+  "            return sum(v[f'w-2:{n}.box_1'] for n in range(i['number_w-2'])) if i['number_w-2'] > 0 else None\n", None,
+  'the same sum over a generator expression', expect='silent')
+M('k23g-filler-upper-cases-the-box-text', ['C18', 'C19'], PF, "                string_value = pdf_field.value(value, field)\n", "                string_value = pdf_field.value(value, field)\n                if form.jurisdiction.name == 'NC':\n                    string_value = string_value.upper()\n", 'K23g',
+  'the filler upper-cases what the mapping returned for NC forms: check-box export values become states the template does not define (seed C18-T)')
+M('k23g-box-text-variable-renamed', ['C18', 'C19'], PF, "                string_value = pdf_field.value(value, field)\n            except values.UnmetDependency:\n                assert field_name not in required_fields\n                string_value = \"\"\n            fdf_map[pdf_field.pdf_field_name] = string_value\n",
+  "                box_text = pdf_field.value(value, field)\n            except values.UnmetDependency:\n                assert field_name not in required_fields\n                box_text = \"\"\n            fdf_map[pdf_field.pdf_field_name] = box_text\n", None,
+  'the variable holding the box text renamed', expect='silent')
+M('r19-11-schedule-filed-on-equality', ['C19'], 'habutax/forms/ty2022/fnc_d_400_sa.py', "        return values['nc_d-400_sa.10'] > values['nc_d-400_sa.nc_standard_deduction']\n", "        return values['nc_d-400_sa.10'] >= values['nc_d-400_sa.nc_standard_deduction']\n", 'R19.11',
+  'D-400 Schedule A is filed when the itemized deductions EQUAL the standard deduction, while the D-400 itself takes the standard deduction then (seed C19-T)')
+M('r19-11-decision-written-the-other-way-round', ['C19'], 'habutax/forms/ty2022/fnc_d_400_sa.py', "        return values['nc_d-400_sa.10'] > values['nc_d-400_sa.nc_standard_deduction']\n", "        return not (values['nc_d-400_sa.10'] <= values['nc_d-400_sa.nc_standard_deduction'])\n", None,
+  'the same decision written as a negated <=', expect='silent')
+M('r17-8-input-class-without-a-format-suggestion', ['C17'], IN, "class EnumInput(StringInput):\n", "class DateTextInput(Input):\n    def value(self, string):\n        return string.strip()\n\nclass EnumInput(StringInput):\n", 'R17.8',
+  'a new input class that inherits the raising format_suggestion() stub is used by Schedule 1: its template and prompt crash (seed C17-T)',
+  more=[('habutax/form.py', "                            SSNInput)\n", "                            SSNInput,\n                            DateTextInput)\n"),
+        (Y22 + 'f1040_s1.py', "            StringInput('alimony_paid_date', description=", "            DateTextInput('alimony_paid_date', description=")])
+M('r17-8-input-class-extending-string-input', ['C17'], IN, "class EnumInput(StringInput):\n", "class DateTextInput(StringInput):\n    pass\n\nclass EnumInput(StringInput):\n", None,
+  'the new input class extends StringInput and so has everything the template prints', expect='silent',
+  more=[('habutax/form.py', "                            SSNInput)\n", "                            SSNInput,\n                            DateTextInput)\n"),
+        (Y22 + 'f1040_s1.py', "            StringInput('alimony_paid_date', description=", "            DateTextInput('alimony_paid_date', description=")])
